@@ -21,6 +21,7 @@ KINDS = ELEMENT_KINDS + SEGMENT_KINDS
 def clone(doc):
     d = docgen.Doc(doc.entry, doc.root)
     d.icvn = doc.icvn
+    d.avoid = getattr(doc, 'avoid', '')
     for s in doc.segs:
         if isinstance(s, _Fake):
             g = _Fake(s.id, [list(x) for x in s.vals], s)
@@ -286,7 +287,7 @@ def candidates(doc, kind):
     return out
 
 
-def bad_value(kind, n, v, r):
+def bad_value(kind, n, v, r, icvn=None, avoid=''):
     t, lo, hi = n.dtype, n.minl, n.maxl
     num = t == 'R' or t[0] == 'N'
     if kind == 'too-long':
@@ -308,6 +309,9 @@ def bad_value(kind, n, v, r):
         n_ = max(lo, min(hi, 3))
         if num:
             return 'A' * n_
+        if icvn == '00401' and n_ >= 1 and r.random() < .5:
+            # the two characters that joined the extended set with 5010 only
+            return 'Z' * (n_ - 1) + r.choice([c_ for c_ in '^`' if c_ not in avoid] or ['\xe9'])
         return ('Z' * (n_ - 1) + '\xe9') if n_ >= 1 else None
     if kind == 'control-char':
         n_ = max(lo, 2)
@@ -350,7 +354,7 @@ def inject(doc, kind, loc, seed):
         c = s.node.children[ei]
         n = c if ci is None else c.children[ci]
         old = s.vals[ei][ci if ci is not None else 0] if ei < len(s.vals) and (ci or 0) < len(s.vals[ei]) else ''
-        v = bad_value(kind, n, old, r)
+        v = bad_value(kind, n, old, r, doc.icvn, getattr(doc, 'avoid', ''))
         if kind == 'not-in-code-list' and n.ext and r.random() < .5:
             # a value that is a member of ANOTHER external code list and occurs in this very document under that list
             pool = set(mm.codes().get(n.ext, [])) | set(n.codes)
